@@ -141,7 +141,7 @@ def supst(t, p, bounds = False):
     are outside the operating bounds of the routine."""
     if bounds:
         if (0.01 <= t <= 800.) and (0 <= p):
-            if t <= Tc1_C: ok = (p <= sat(t))
+            if t <= 350.: ok = (p <= sat(t))
             elif t <= 590.: ok = (p <= b23p(t))
             else: ok = (p <= 1.e8)
         else: ok = False
